@@ -130,6 +130,17 @@ CLAIMED = {
              note="Assumed: HDF5 hard links alias (one object, many paths); H5Group.create_link primitive; lazily created link-list "
                   "groups are outside the contract domain. SourceLinkContainer.append (tree search with a lambda filter), dimension "
                   "links and linked ticks/labels are NOT under contract.", ref="7 C05"),
+ "C12": dict(text="Deductive proof, per public creating / mutating function under contract, that every path ending in a refusal leaves "
+                  "the abstract store exactly as it was (an automatic obligation `atomic:<component>` for every raising path of "
+                  "every unit: no write before the raise), and that the refusal is raised exactly under its stated condition: "
+                  "attribute setters of entities, tags, sections and dimensions, forced timestamps, Property.values / "
+                  "extend_values, Section.create_property, link-list append, DataSet.append (shape refusals), the data-frame "
+                  "writers and - in prefix mode - create_block / create_tag / create_multi_tag / create_group / create_source / "
+                  "create_section (duplicate or illegal name, empty type refused before anything is created).",
+             note="Assumed: the h5py primitives raise only per their stated preconditions. Not covered: create_data_array / "
+                  "create_data_frame (a failure after the group exists - wrong unit type, dtype/data mismatch - and a conversion "
+                  "failure inside DataSet.append after the resize are candidate findings F4, documented in DESIGN.md, outside the "
+                  "contracts), dimension linking, failures inside libhdf5.", ref="7 C12"),
 }
 NA_REASON = "check not built yet in this round (design in DESIGN.md section 7); will be claimed once its contracts discharge"
 checks, na = [], []
